@@ -13,7 +13,7 @@ from common import *          # noqa
 from fieldmodel import *      # noqa
 
 UN_OPS = ["neg", "square", "half", "mul2", "mul4", "mul8", "mul16", "mul32"]
-UN_MULT = {"mul2": 2, "mul4": 4, "mul8": 8, "mul16": 16, "mul32": 32, "mul3": 3, "mul21": 21}
+UN_MULT = {"mul2": 2, "mul4": 4, "mul8": 8, "mul16": 16, "mul32": 32, "mul3": 3, "mul21": 21, "set_mul21": 21}
 
 
 def operand(rng, f, x):
@@ -198,8 +198,22 @@ def gen_prime(rng, f, n):
                 if k in f.caps:
                     cand.append(k)
             op = rng.choice(cand)
+            if op == "mul21" and rng.randrange(2):
+                op = "set_mul21"
             a = hostile_raw(rng, f)
+            mfac = UN_MULT.get(op)
+            solved = False
+            if mfac and rng.randrange(3) == 0:
+                # operand solved so that the product by the constant lands just below / on / above a multiple of 2^w or of q
+                # (the fold of the overflow word then carries, or needs a second fold)
+                kq = rng.randrange(1, mfac + 1)
+                base = rng.choice([kq * top, kq * top - (top - q) * kq, kq * q, kq * top + (top - q)])
+                a2 = (base + rng.choice([-1, 0, 1, -2, 2, -rng.randrange(1 << 34), rng.randrange(1 << 34)])) // mfac + rng.choice([0, 0, 1, -1])
+                if 0 <= a2 < top:
+                    a = a2; solved = True
             da, va, ca = operand(rng, f, a)
+            if solved:
+                ca = ca + ["product-at-multiple-of-2^w-or-q"]
             if op == "neg":
                 r = -va % q
             elif op == "square":
